@@ -90,3 +90,8 @@ def norm_md(md):
     if all(not m for m in out):
         return None
     return out
+
+
+def all_finite(snap):
+    return all(v == v and v not in (float("inf"), float("-inf"))
+               for row in snap["rows"] for v in row)
